@@ -41,6 +41,8 @@ type (
 		stateMu sync.RWMutex
 		// The connection (`Manager.connEpoch` + 1) that the last CONNECT packet was sent with.
 		connectSentEpoch uint64
+		// The connection (`Manager.connEpoch`) that the socket is connected with, if it is connected.
+		connectedEpoch uint64
 		// Whether the end of the current connection was already reported (see onClose).
 		closeReported bool
 
@@ -280,6 +282,7 @@ func (s *clientSocket) Disconnect() {
 	// closes the whole connection then, with the sockets of the other namespaces.
 	s.stateMu.Lock()
 	state := s.state
+	epoch := s.connectedEpoch
 	connected := state == clientSocketConnStateConnected || state == clientSocketConnStateConnectPending
 	if connected {
 		s.state = clientSocketConnStateDisconnected
@@ -294,9 +297,12 @@ func (s *clientSocket) Disconnect() {
 	// The CONNECT packet is sent on a goroutine of its own and might not be out yet: a DISCONNECT
 	// packet that overtakes it is addressed to a namespace the connection has not joined, and
 	// the server closes the whole connection then. `onConnect` sends it when the reply arrives.
+	//
+	// The packet is for the connection that the socket is connected with. By the time it is sent,
+	// that connection might have ended and the next one might be established (for another socket).
 	if state == clientSocketConnStateConnected && s.manager.connected() {
 		s.debug.Log("Performing disconnect", s.namespace)
-		s.sendControlPacket(parser.PacketTypeDisconnect, nil)
+		s.sendDisconnectPacketOf(epoch)
 	}
 
 	s.destroy()
@@ -308,6 +314,7 @@ func (s *clientSocket) Disconnect() {
 	s.stateMu.Lock()
 	late := s.state == clientSocketConnStateConnected || s.state == clientSocketConnStateConnectPending
 	lateConnected := s.state == clientSocketConnStateConnected
+	epoch = s.connectedEpoch
 	if late {
 		s.state = clientSocketConnStateDisconnected
 		// A `Connect` call that overlaps with this call has put the socket back
@@ -316,7 +323,7 @@ func (s *clientSocket) Disconnect() {
 	}
 	s.stateMu.Unlock()
 	if lateConnected && s.manager.connected() {
-		s.sendControlPacket(parser.PacketTypeDisconnect, nil)
+		s.sendDisconnectPacketOf(epoch)
 	}
 	if late {
 		s.manager.destroy(s)
@@ -488,6 +495,7 @@ func (s *clientSocket) onConnect(_ *parser.PacketHeader, decode parser.Decode, e
 	}
 	s.setID(SocketID(v.SID))
 	s.state = clientSocketConnStateConnected
+	s.connectedEpoch = epoch
 	s.stateMu.Unlock()
 
 	s.debug.Log("Socket connected")
@@ -966,6 +974,9 @@ func (s *clientSocket) sendDisconnectPacketOf(epoch uint64) {
 	if err != nil {
 		return
 	}
+	// Behind the packets that `Emit` calls on other goroutines are sending (see `_sendBuffers`).
+	s.sendBufferMu.Lock()
+	defer s.sendBufferMu.Unlock()
 	s.manager.packetOf(epoch, packet)
 }
 
